@@ -202,6 +202,11 @@ def run(ctx):
     for _ in range(10000 if ctx.thorough else 2000):
         values.append(('d', G.rand_float(rng)))
         values.append(('s', "".join(rng.choice(G.ALPHABET + ["\\", "'", "\n", "x", "4", "1"]) for _ in range(rng.randint(0, 8)))))
+    # decimals whose two shortest digit strings are equally near (the repr tie rule): k + 0.25 / 0.75 where the spacing is 0.25
+    for _ in range(600 if ctx.thorough else 150):
+        k = rng.randrange(2 ** 50, 2 ** 51)
+        values.append(('d', rng.choice([1, -1]) * (k + rng.choice([0.25, 0.75]))))
+    values.append(('d', 2214702772090829.75))
     it, _ = common.fresh_interpreter(True, False)
     reqs, meta = [], []
     for av in values:
